@@ -32,6 +32,8 @@ try:
         ev = os.path.join(S, 'ev')
         for i in range(1, 21):
             pid = f'C{i:02d}'
+            if os.environ.get('SEED_ONLY') and pid not in os.environ['SEED_ONLY'].split(','):
+                continue
             p = subprocess.run(['/verif/check', pid], env=dict(os.environ, VERIF_REPO=repo, VERIF_EVIDENCE_DIR=ev), capture_output=True, text=True)
             if p.returncode != 0:
                 rules = sorted({l.split()[1] for l in p.stdout.splitlines() if l.startswith('  rule ')})
